@@ -533,7 +533,10 @@ theorem npIndex_simple (rs : List (Nat × List Nat × Bool))
     | cons r rs ih =>
       have ih' := ih (fun r' hr' => hd r' (by simp [hr']))
         (by rw [List.any_eq_false] at *; intro q hq; exact hnl q (by simp [hq]))
-      cases hk : r.2.2 <;> simp [toNPart, hk, ih']
+      unfold sliceLens at ih' ⊢
+      cases hk : r.2.2 <;>
+        simp only [List.map_cons, toNPart, hk, Bool.false_eq_true, ↓reduceIte, List.filterMap_cons,
+          NPart.sliceLen?, List.filter_cons, ih']
   · congr 1
     rw [List.map_map]
     apply List.map_congr_left
@@ -543,12 +546,100 @@ theorem npIndex_simple (rs : List (Nat × List Nat × Bool))
     | true => simp
     | false => simp only [Bool.false_eq_true, ↓reduceIte]; exact (hd r hr hk).symm
 
-/-- `_set_subtensor` with an integer/slice key and a scalar computes the specification's new
-shape and assignments. -/
-theorem Dense.setSubtensor_eq [Zero α] (T : Dense α) (parts : List RPart) (v : α)
-    (hp : parts.all RPart.simple = true) (hne : parts ≠ []) :
-    T.setSubtensor parts (.scalar v) =
-      (MArr.resolveWrite T.shape (.region parts) (.scalar v)).map fun r => (T.resize r.1).scatter r.2 := by
+/-! ### right-hand sides of a region write -/
+
+theorem broadcast_index_id (ks j : List Nat) (hj : InBounds ks j) :
+    ((List.range ks.length).map fun d => if ks.getD d 0 == 1 then 0 else j.getD (0 + d) 0) = j := by
+  have hl := hj.length_eq
+  apply List.ext_getElem
+  · simp [hl]
+  · intro d h1 h2
+    have hd : d < ks.length := by simpa using h1
+    have hlt := hj.getD_lt' d hd
+    simp only [List.getElem_map, List.getElem_range, Nat.zero_add]
+    have hjd : j.getD d 0 = j[d] := by simp [List.getD_eq_getElem?_getD, List.getElem?_eq_getElem h2]
+    rw [hjd] at hlt ⊢
+    by_cases h1' : ks.getD d 0 = 1
+    · simp only [h1', beq_self_eq_true, if_true]
+      omega
+    · have : (ks.getD d 0 == 1) = false := by simpa using h1'
+      simp only [this, Bool.false_eq_true, if_false]
+
+/-- An array (or tensor) whose shape is exactly the shape of the indexed result is
+assigned cell by cell in F order: NumPy's broadcast is the identity. -/
+theorem npBroadcast_go_exact [Zero α] (T : Dense α) (ks : List Nat) (hs : T.shape = ks) :
+    (let extra := T.shape.length - ks.length
+     let vs := if (T.shape.take extra).all (· == 1) then T.shape.drop extra else T.shape
+     if vs.length > ks.length ∨ numel vs ≠ T.data.length then (Except.error Reject.reject : Except Reject (List α))
+     else
+       let pad := ks.length - vs.length
+       if (List.range vs.length).any fun d => vs.getD d 0 != ks.getD (pad + d) 0 && vs.getD d 0 != 1 then
+         .error .reject
+       else
+         let V : Dense α := ⟨vs, T.data⟩
+         .ok ((allSubs ks).map fun j =>
+           V.get ((List.range vs.length).map fun d => if vs.getD d 0 == 1 then 0 else j.getD (pad + d) 0))) =
+    if T.data.length = numel ks then .ok T.data else .error .reject := by
+  subst hs
+  simp only [Nat.sub_self, List.take_zero, List.all_nil, if_true, List.drop_zero, Nat.lt_irrefl, false_or]
+  by_cases hl : T.data.length = numel T.shape
+  · have hne : ¬ numel T.shape ≠ T.data.length := fun h => h hl.symm
+    rw [if_neg hne, if_pos hl]
+    have hany : ((List.range T.shape.length).any fun d =>
+        T.shape.getD d 0 != T.shape.getD (0 + d) 0 && T.shape.getD d 0 != 1) = false := by
+      rw [List.any_eq_false]; intro d _; simp
+    rw [if_neg (by rw [hany]; simp)]
+    congr 1
+    have hwf : (⟨T.shape, T.data⟩ : Dense α).WF := hl
+    conv => rhs; rw [show T.data = (⟨T.shape, T.data⟩ : Dense α).data from rfl, Dense.data_eq_map_get _ hwf]
+    apply List.map_congr_left
+    intro j hj
+    rw [broadcast_index_id T.shape j (mem_allSubs.1 hj)]
+  · have hne : numel T.shape ≠ T.data.length := fun h => hl h.symm
+    rw [if_pos hne, if_neg hl]
+
+/-- the right-hand side of a region write is a scalar, or an array / tensor whose shape is
+exactly the shape of the region (`ks`) -/
+def Rhs.fitsRegion (rhs : Rhs α) (ks : List Nat) : Bool :=
+  match rhs with
+  | .scalar _ => true
+  | .col _ => false
+  | .arr T => decide (T.shape = ks)
+  | .tensor T => decide (T.shape = ks)
+
+theorem npBroadcast_fits [Zero α] (rhs : Rhs α) (ks : List Nat) (n : Nat) (hn : n = numel ks)
+    (hf : rhs.fitsRegion ks = true) : npBroadcast rhs ks = MArr.regionValues rhs ks n := by
+  subst hn
+  cases rhs with
+  | scalar v => rfl
+  | col vs => simp [Rhs.fitsRegion] at hf
+  | arr T =>
+    have hs : T.shape = ks := by simpa [Rhs.fitsRegion] using hf
+    simp only [npBroadcast, MArr.regionValues]
+    rw [npBroadcast_go_exact T ks hs]
+    by_cases hl : T.data.length = numel ks
+    · simp [hs, hl]
+    · simp [hl]
+  | tensor T =>
+    have hs : T.shape = ks := by simpa [Rhs.fitsRegion] using hf
+    simp only [npBroadcast, MArr.regionValues]
+    rw [npBroadcast_go_exact T ks hs]
+    by_cases hl : T.data.length = numel ks
+    · simp [hs, hl]
+    · simp [hl]
+
+/-- the right-hand side fits the region the key addresses (when the key resolves at all) -/
+def rhsFits (s : List Nat) (parts : List RPart) (rhs : Rhs α) : Bool :=
+  match MArr.regionParts true s parts with
+  | .ok rs => rhs.fitsRegion (MArr.keptShape rs)
+  | .error _ => true
+
+/-- `_set_subtensor` with an integer/slice key computes the specification's new shape and
+assignments, for a scalar and for an array / tensor of the region's shape. -/
+theorem Dense.setSubtensor_eq [Zero α] (T : Dense α) (parts : List RPart) (rhs : Rhs α)
+    (hp : parts.all RPart.simple = true) (hne : parts ≠ []) (hfit : rhsFits T.shape parts rhs = true) :
+    T.setSubtensor parts rhs =
+      (MArr.resolveWrite T.shape (.region parts) rhs).map fun r => (T.resize r.1).scatter r.2 := by
   have hreg := region_simple T.shape parts hp
   have hemp : parts.isEmpty = false := by cases parts <;> simp_all
   simp only [Dense.setSubtensor, MArr.resolveWrite, hemp, Bool.false_eq_true, ↓reduceIte]
@@ -567,6 +658,8 @@ theorem Dense.setSubtensor_eq [Zero α] (T : Dense α) (parts : List RPart) (v :
     rw [hr] at hreg
     simp only [Except.map, bind, Except.bind, pure, Except.pure] at hreg ⊢
     have hd := regionParts_dropped hr
+    have hfit' : rhs.fitsRegion (MArr.keptShape rs) = true := by
+      unfold rhsFits at hfit; rw [hr] at hfit; exact hfit
     rcases hn : Dense.newSizeParts T.shape parts with ⟨⟨⟩⟩ | s'
     · rw [hn] at hreg; cases hreg
     · rw [hn] at hreg
@@ -576,8 +669,10 @@ theorem Dense.setSubtensor_eq [Zero α] (T : Dense α) (parts : List RPart) (v :
       · rw [hq] at hreg
         simp only [Except.ok.injEq, Prod.mk.injEq] at hreg
         obtain ⟨rfl, rfl⟩ := hreg
-        simp only [npIndex_simple rs hd, npBroadcast, MArr.regionValues]
-        rw [outerF_length, numel_keptShape rs hd]
+        simp only [npIndex_simple rs hd]
+        rw [npBroadcast_fits rhs (MArr.keptShape rs) (outerF (rs.map (·.2.1))).length
+          (by rw [outerF_length, numel_keptShape rs hd]) hfit']
+        cases MArr.regionValues rhs (MArr.keptShape rs) (outerF (rs.map (·.2.1))).length <;> rfl
 
 /-! ### reads -/
 
@@ -779,107 +874,5 @@ theorem Dense.getItem_region [Zero α] {T : Dense α} {m : MArr α} (h : DRel T 
       have h2 := congrArg List.length (regionParts_read_shape hr)
       simp only [List.length_map] at h2
       omega
-
-/-! ### one step and whole histories -/
-
-/-- The operations for which the refinement is proved, at a state of shape `s`:
-subscript arrays (any right-hand side), linear keys (on a tensor of order ≥ 1) and
-non-empty integer/slice regions (writes: scalar right-hand side).
-Not covered: index lists in region keys, array / tensor right-hand sides of region writes. -/
-def IdxOp.provedAt (s : List Nat) : IdxOp α → Bool
-  | .write (.region parts) (.scalar _) => parts.all RPart.simple && !parts.isEmpty
-  | .write (.region _) _ => false
-  | .write (.subs _) _ => true
-  | .write _ _ => !s.isEmpty
-  | .read (.region parts) => parts.all RPart.simple && !parts.isEmpty
-  | .read (.subs _) => true
-  | .read _ => !s.isEmpty
-
-/-- Every operation of the history is of a proved form at the state it is applied to. -/
-def ProvedHist [Zero α] : MArr α → List (IdxOp α) → Prop
-  | _, [] => True
-  | m, op :: ops => op.provedAt m.shape = true ∧ ProvedHist (m.step op).1 ops
-
-theorem Dense.setItem_refines [Zero α] {T : Dense α} {m : MArr α} (h : DRel T m) (key : Key) (rhs : Rhs α)
-    (hp : (IdxOp.write key rhs).provedAt T.shape = true) : RefW (T.setItem key rhs) (m.write key rhs) := by
-  apply RefW.of_eq h
-  cases key with
-  | subs rows => exact Dense.setSubscripts_eq T rows rhs
-  | region parts =>
-    cases rhs with
-    | scalar v =>
-      simp only [IdxOp.provedAt, Bool.and_eq_true, Bool.not_eq_true', List.isEmpty_eq_false_iff] at hp
-      exact Dense.setSubtensor_eq T parts v hp.1 hp.2
-    | col vs => simp [IdxOp.provedAt] at hp
-    | arr A => simp [IdxOp.provedAt] at hp
-    | tensor A => simp [IdxOp.provedAt] at hp
-  | lin i =>
-    have hs : T.shape ≠ [] := by simpa [IdxOp.provedAt] using hp
-    show T.setLinear (.lin i) rhs = _
-    exact Dense.setLinear_eq T hs (.lin i) rhs (by intro r; simp) (by intro r; simp)
-  | linSlice a b c =>
-    have hs : T.shape ≠ [] := by simpa [IdxOp.provedAt] using hp
-    show T.setLinear (.linSlice a b c) rhs = _
-    exact Dense.setLinear_eq T hs (.linSlice a b c) rhs (by intro r; simp) (by intro r; simp)
-  | linList is =>
-    have hs : T.shape ≠ [] := by simpa [IdxOp.provedAt] using hp
-    show T.setLinear (.linList is) rhs = _
-    exact Dense.setLinear_eq T hs (.linList is) rhs (by intro r; simp) (by intro r; simp)
-
-theorem Dense.getItem_refines [Zero α] {T : Dense α} {m : MArr α} (h : DRel T m) (key : Key)
-    (hp : (IdxOp.read key : IdxOp α).provedAt T.shape = true) : T.getItem key = m.read key := by
-  cases key with
-  | subs rows => exact Dense.getItem_subs h rows
-  | region parts =>
-    simp only [IdxOp.provedAt, Bool.and_eq_true, Bool.not_eq_true', List.isEmpty_eq_false_iff] at hp
-    exact Dense.getItem_region h parts hp.1 hp.2
-  | lin i =>
-    have hs : T.shape ≠ [] := by simpa [IdxOp.provedAt] using hp
-    exact Dense.getItem_linear h hs (.lin i) (by intro r; simp) (by intro r; simp)
-  | linSlice a b c =>
-    have hs : T.shape ≠ [] := by simpa [IdxOp.provedAt] using hp
-    exact Dense.getItem_linear h hs (.linSlice a b c) (by intro r; simp) (by intro r; simp)
-  | linList is =>
-    have hs : T.shape ≠ [] := by simpa [IdxOp.provedAt] using hp
-    exact Dense.getItem_linear h hs (.linList is) (by intro r; simp) (by intro r; simp)
-
-/-- One operation on related states: equal output (value read / written / rejected) and
-related states afterwards. -/
-theorem Dense.step_refines [Zero α] {T : Dense α} {m : MArr α} (h : DRel T m) (op : IdxOp α)
-    (hp : op.provedAt T.shape = true) :
-    DRel (T.step op).1 (m.step op).1 ∧ (T.step op).2 = (m.step op).2 := by
-  cases op with
-  | write key rhs =>
-    have hr := Dense.setItem_refines h key rhs hp
-    simp only [Dense.step, MArr.step]
-    cases h1 : T.setItem key rhs with
-    | error e =>
-      cases h2 : m.write key rhs with
-      | error e' => exact ⟨h, rfl⟩
-      | ok m' => rw [h1, h2] at hr; exact absurd hr (by simp [RefW])
-    | ok T' =>
-      cases h2 : m.write key rhs with
-      | error e' => rw [h1, h2] at hr; exact absurd hr (by simp [RefW])
-      | ok m' => rw [h1, h2] at hr; exact ⟨hr, rfl⟩
-  | read key =>
-    have hr := Dense.getItem_refines h key hp
-    simp only [Dense.step, MArr.step, hr]
-    cases m.read key with
-    | error e => exact ⟨h, rfl⟩
-    | ok v => exact ⟨h, rfl⟩
-
-/-- Any history: the dense tensor and the abstract array stay related and every step
-returns the same output. -/
-theorem Dense.run_refines [Zero α] {T : Dense α} {m : MArr α} (h : DRel T m) (ops : List (IdxOp α))
-    (hp : ProvedHist m ops) :
-    DRel (T.run ops).1 (m.run ops).1 ∧ (T.run ops).2 = (m.run ops).2 := by
-  induction ops generalizing T m with
-  | nil => exact ⟨h, rfl⟩
-  | cons op ops ih =>
-    obtain ⟨hp1, hp2⟩ := hp
-    have hs := Dense.step_refines h op (by rw [h.shape]; exact hp1)
-    have := ih hs.1 hp2
-    simp only [Dense.run, MArr.run]
-    exact ⟨this.1, by rw [hs.2, this.2]⟩
 
 end Pyttb
